@@ -414,3 +414,31 @@ def with_spectator_copy(rng, pairs):
         k = rng.randint(1, 2)
         out.append(("copy|" + tag, sp[0] + ("." + m) * k + ">>" + sp[1] + ("." + m) * k))
     return out
+
+
+DOT_CLOSURES = [("C1.O1", "CO"), ("C1.C1", "CC"), ("CC1.O1", "CCO"), ("C1CC.C1", "CCCC"),
+                ("N1(CC)CC.C1", "CCN(C)CC"), ("c1ccccc1C2.O2", "OCc1ccccc1"), ("CC(=O)O1.C1", "COC(C)=O"),
+                ("Cl1.C1", "CCl"), ("C=1.C=1", "C=C"), ("C1.N1C", "CNC"), ("OC1.C1=O", "OCC=O")]
+
+
+def dot_ring_closures(rng, n):
+    """valid SMILES in which one molecule is written with a ring-closure bond across a dot ('C1.O1' is
+    methanol): balanced pairs with the ordinary spelling, and the same molecule as an extra reagent"""
+    base = balanced_corpus()
+    out = []
+    for i in range(n):
+        d, c = rng.choice(DOT_CLOSURES)
+        k = rng.randrange(4)
+        if k == 0:
+            out.append(("dotring_bal|%d" % i, "%s>>%s" % (d, c)))
+        elif k == 1:
+            out.append(("dotring_bal_rev|%d" % i, "%s>>%s" % (c, d)))
+        elif k == 2:
+            tag, rx = rng.choice(base)
+            a, b = rx.split(">>")
+            out.append(("dotring_spectator|%d" % i, "%s.%s>>%s.%s" % (a, d, b, c)))
+        else:
+            tag, rx = rng.choice(base)
+            a, b = rx.split(">>")
+            out.append(("dotring_extra|%d" % i, "%s.%s>>%s" % (a, d, b)))
+    return [(t, s) for t, s in out if oracle.in_domain_rsmi(s)]
